@@ -1,6 +1,7 @@
 // h_storage: replay attach/policy histories through the repository's StorageConfiguration.
 // Input: one history per line, tokens: P (physical policy) | F (first policy) | <k> (attach image with k surfaces)
 //        | U<k> (attach image with k surfaces, all unformatted)
+//        | r<drive>:<sector> (read one block through the drive's cache; reported in "reads")
 // Output per line: JSON {"steps":[{"ok":bool,"map":[[drive,img,side],...]},...],"config":"..."}
 #include "storage.h"
 #include "dfs_format.h"
@@ -16,7 +17,18 @@ namespace {
 struct Dummy : public DFS::AbstractDrive
 {
   Dummy(int img, int side) : img_(img), side_(side) {}
-  std::optional<DFS::SectorBuffer> read_block(unsigned long) override { return std::nullopt; }
+  // every sector of a dummy surface says who it is: bytes 0..2 = image, side, sector
+  std::optional<DFS::SectorBuffer> read_block(unsigned long sec) override
+  {
+    ++reads_;
+    DFS::SectorBuffer b;
+    b.fill(0);
+    b[0] = static_cast<DFS::byte>(img_);
+    b[1] = static_cast<DFS::byte>(side_);
+    b[2] = static_cast<DFS::byte>(sec);
+    return b;
+  }
+  int reads_ = 0;
   DFS::Geometry geometry() const override { return DFS::Geometry(40, 1, 10, DFS::Encoding::FM); }
   std::string description() const override { return "img " + std::to_string(img_) + " side " + std::to_string(side_); }
   int img_, side_;
@@ -36,11 +48,32 @@ int main()
       std::string tok;
       int img = 0;
       std::string out = "{\"steps\":[";
+      std::string reads = "";
       bool firststep = true;
       while (is >> tok)
 	{
 	  if (tok == "P") { how = DFS::DriveAllocation::PHYSICAL; continue; }
 	  if (tok == "F") { how = DFS::DriveAllocation::FIRST; continue; }
+	  if (tok[0] == 'r')
+	    {
+	      size_t colon = tok.find(':');
+	      unsigned d = static_cast<unsigned>(std::stoul(tok.substr(1, colon - 1)));
+	      unsigned long sec = std::stoul(tok.substr(colon + 1));
+	      DFS::AbstractDrive* p = 0;
+	      std::string err;
+	      if (!reads.empty()) reads += ",";
+	      if (sc.select_drive(DFS::drive_number(d), &p, err))
+		{
+		  auto got = p->read_block(sec);
+		  if (got)
+		    reads += "[" + std::to_string(d) + "," + std::to_string(sec) + "," + std::to_string((*got)[0]) + "," + std::to_string((*got)[1]) + "," + std::to_string((*got)[2]) + "]";
+		  else
+		    reads += "[" + std::to_string(d) + "," + std::to_string(sec) + ",-1,-1,-1]";
+		}
+	      else
+		reads += "[" + std::to_string(d) + "," + std::to_string(sec) + ",-1,-1,-1]";
+	      continue;
+	    }
 	  bool unformatted = tok[0] == 'U';
 	  int k = std::stoi(unformatted ? tok.substr(1) : tok);
 	  std::vector<std::optional<DFS::DriveConfig>> sides;
@@ -72,7 +105,7 @@ int main()
 	    }
 	  out += "]}";
 	}
-      out += "],\"config\":\"";
+      out += "],\"reads\":[" + reads + "],\"config\":\"";
       std::ostringstream cfg;
       sc.show_drive_configuration(cfg);
       for (char c : cfg.str())
